@@ -22,6 +22,19 @@ T2: (a) revert: for every working-tree file in the scope of a generated revert
     the model for generated sets of taken names; (d) merge content decision:
     fate of THIS content for generated (base, this, other) texts against the
     model (kept / replaced by OTHER / merged / conflict helpers).
+    (e) merge hashes: after every merge-like command of the two-step sequences
+    `WorkingTree.merge_modified()` is compared per path with the model's rule
+    (recorded iff the incoming revision changed the file's text or added it;
+    never for a file it only renames or moves).
+Two-step sequences (own stream, every seed, corpus/C12/seq-min-*.json first):
+    a checkout / branch with uncommitted edits receives, by pull / merge
+    --force / update / switch (optionally twice), revisions that rename or
+    move edited files (in place, into a new or existing directory, out of a
+    directory, renamed again), change other files and add files; then revert
+    (all / the moved path, backups on), remove of the moved path, or a second
+    merge.  User contents are tracked over the whole sequence: a content must
+    stay verbatim below the tree root after every step, until a merge-like step
+    merges it into a text (from then on it is "written by a merge").
 Oracle: histories (bzr 2a and git trees) with modified, added, re-added,
     unknown and previously merged files; commands revert (all / selected /
     -r OLD, backups on/off), remove (keep / force / default), merge, pull,
@@ -46,7 +59,11 @@ same (o,t); bzr remove: safety scan skipped (o,t); bzr remove: rmtree of a
 non-empty directory without force (o,t); backup branch of _alter_files deleting
 instead of renaming (o,t); _dump_conflicts without the THIS helper (o,t);
 _has_named_child ignoring the file system, so the backup name collides (t);
-no-basis branch keeping content only for a versioned target (o,t).  Equivalent
+no-basis branch keeping content only for a versioned target (o,t);
+_apply_insertions reporting renamed files in modified_paths, so that
+write_modified records them as written by the merge and a later revert drops
+the edit without backup (seeded by the coordinator; o,t on every seed through
+the two-step sequences).  Equivalent
 mutants (stay clean, by design of the code): dropping the `versioned[0] is
 False` branch of remove (the `changed_content` branch covers unknown and added
 files).  Harmless rewrites that stay clean: remove() using sorted(); the
@@ -67,6 +84,7 @@ THEOREMS = [
     "firstFree_sound", "firstFree_congr", "firstFree_total", "backup_name_fresh",
     "remove_safe", "remove_keep", "remove_deletes_only_clean",
     "merge_keeps_local", "merge_helper_iff", "uncommit_pure",
+    "merge_records_only_written", "move_only_merge_then_revert_keeps", "merge_written_then_revert_may_discard",
 ]
 T1_THEOREMS = ["source_flags_covered"]
 RUST = ("osutils-py",)
